@@ -6,9 +6,12 @@
 (* the MsgConfirm wrapper).  Property C12, part 1.                         *)
 (*                                                                         *)
 (* Objects are oracle sets ("os<n>"), outgoing batches ("tb<n>") and       *)
-(* outgoing bridge calls ("bc<n>"); the oracle registry (bridger and       *)
-(* external address of every oracle) is fixed by the set-up and carried    *)
-(* in the state only so that it is projected from the real store.          *)
+(* outgoing bridge calls ("bc<n>").  The oracle registry is part of the    *)
+(* state: the external address of every oracle is fixed by the set-up, the *)
+(* bridger of an oracle is replaced by EditBridger (msg_server.go          *)
+(* EditBridger).  "That oracle's bridger" lives in two stores: the Oracle  *)
+(* record (0x12, read by ValidateConfirmSign) and the bridger -> oracle    *)
+(* index (0x14, read by claims and batch requests); both are projected.    *)
 (*                                                                         *)
 (* A signature is an ABSTRACT class (SigClass).  The harness realises a    *)
 (* class with real secp256k1 signatures; which classes verify (under the   *)
@@ -26,36 +29,41 @@ CONSTANTS Oracle,      \* {"o1","o2"}
           Ext,         \* external addresses: the registered ones and an unregistered one
           Object,      \* object names
           Late,        \* objects created by the Create operation (the others exist initially)
-          BridgerOf,   \* [Oracle -> Sender]  registry fixed by the set-up
+          BridgerOf,   \* [Oracle -> Sender]  registry built by the set-up (initial bridgers)
           ExtOf,       \* [Oracle -> Ext]
           SigClass,    \* abstract signature classes
           Verifying,   \* the classes that verify for exactly (ext's key, this object, this module)
-          MaxConfirms  \* bound on the number of stored confirmations (action constraint)
+          MaxConfirms, \* bound on the number of stored confirmations (action constraint)
+          MaxEdits     \* bound on the number of bridger replacements (action constraint)
 
 ASSUME Late \subseteq Object /\ Verifying \subseteq SigClass
 
 VARIABLES stored,      \* [Object -> BOOLEAN]           the object exists in the module's store
-          bridgerOf,   \* [Oracle -> Sender]            registered bridger
+          bridgerOf,   \* [Oracle -> Sender]            registered bridger (Oracle record)
+          bridgerIdx,  \* [Sender -> Oracle \cup {"none"}] the oracle an account is bound to as bridger (bridger index)
           extOf,       \* [Oracle -> Ext]               registered external address
           confirms,    \* [Object -> [Oracle -> class]] the class of the stored signature, "none" if no confirmation
           valid,       \* [Object -> [Oracle -> BOOLEAN]] real state: the stored confirmation names this object and this
                        \*   oracle's external address and its signature recovers to that address over the object's
                        \*   checkpoint recomputed independently (TRUE when nothing is stored); model: always TRUE
           stray,       \* number of entries under the confirmation prefixes outside the slots (object, oracle); model: 0
+          edits,       \* number of accepted EditBridger so far (bounding counter, not projected)
           op           \* the operation just attempted
 
-svars == <<stored, bridgerOf, extOf, confirms, valid, stray>>
-vars  == <<svars, op>>
 None  == "none"
+svars == <<stored, bridgerOf, bridgerIdx, extOf, confirms, valid, stray, edits>>
+vars  == <<svars, op>>
 
-Abs == [stored |-> stored, bridgerOf |-> bridgerOf, extOf |-> extOf, confirms |-> confirms, valid |-> valid, stray |-> stray]
+Abs == [stored |-> stored, bridgerOf |-> bridgerOf, bridgerIdx |-> bridgerIdx, extOf |-> extOf, confirms |-> confirms, valid |-> valid, stray |-> stray]
 
 Op(name, form, wsender, sender, ext, obj, sig, res) ==
-  [name |-> name, form |-> form, wsender |-> wsender, sender |-> sender, ext |-> ext, obj |-> obj, sig |-> sig, res |-> res]
+  [name |-> name, form |-> form, wsender |-> wsender, sender |-> sender, oracle |-> None, ext |-> ext, obj |-> obj, sig |-> sig, res |-> res]
 
 Init ==
   /\ stored = [ob \in Object |-> ob \notin Late]
   /\ bridgerOf = BridgerOf /\ extOf = ExtOf
+  /\ bridgerIdx = [s \in Sender |-> IF \E o \in Oracle : BridgerOf[o] = s THEN CHOOSE o \in Oracle : BridgerOf[o] = s ELSE None]
+  /\ edits = 0
   /\ confirms = [ob \in Object |-> [o \in Oracle |-> None]]
   /\ valid = [ob \in Object |-> [o \in Oracle |-> TRUE]]
   /\ stray = 0
@@ -84,7 +92,7 @@ Confirm(form, wsender, sender, ext, ob, sig) ==
      LET o == CHOOSE x \in own : TRUE IN
      /\ confirms' = [confirms EXCEPT ![ob][o] = sig]
      /\ op' = this
-     /\ UNCHANGED <<stored, bridgerOf, extOf, valid, stray>>
+     /\ UNCHANGED <<stored, bridgerOf, bridgerIdx, extOf, valid, stray, edits>>
 
 (* The object is created through the module's real entry points (MsgSendToExternal + MsgRequestBatch,  *)
 (* MsgBridgeCall); it gets the next nonce of its kind.                                                 *)
@@ -93,7 +101,19 @@ Create(ob) ==
   IN IF ~(ob \in Late /\ ~stored[ob]) THEN Rej(this) ELSE
      /\ stored' = [stored EXCEPT ![ob] = TRUE]
      /\ op' = this
-     /\ UNCHANGED <<bridgerOf, extOf, confirms, valid, stray>>
+     /\ UNCHANGED <<bridgerOf, bridgerIdx, extOf, confirms, valid, stray, edits>>
+
+(* MsgEditBridger, signed by the oracle: the oracle replaces its bridger by an account that is not bound   *)
+(* to any oracle.  The replaced account is unbound; confirmations already kept stay.                    *)
+EditBridger(o, s) ==
+  LET this == [Op("EditBridger", None, None, s, None, None, None, "ok") EXCEPT !.oracle = o]
+      okk  == bridgerOf[o] # s /\ bridgerIdx[s] = None
+  IN IF ~okk THEN Rej(this) ELSE
+     /\ bridgerOf' = [bridgerOf EXCEPT ![o] = s]
+     /\ bridgerIdx' = [bridgerIdx EXCEPT ![bridgerOf[o]] = None, ![s] = o]
+     /\ edits' = edits + 1
+     /\ op' = this
+     /\ UNCHANGED <<stored, extOf, confirms, valid, stray>>
 
 Probe == op' = Op("Probe", None, None, None, None, None, None, "ok") /\ UNCHANGED svars
 
@@ -102,6 +122,7 @@ Next ==
         \/ Confirm("direct", None, s, e, ob, sg)
         \/ \E ws \in Sender : Confirm("wrapped", ws, s, e, ob, sg)
   \/ \E ob \in Late : Create(ob)
+  \/ \E o \in Oracle, s \in Sender : EditBridger(o, s)
   \/ Probe
 
 Spec == Init /\ [][Next]_vars
@@ -109,6 +130,7 @@ Spec == Init /\ [][Next]_vars
 Do(e) ==
   CASE e.name = "Confirm" -> Confirm(e.form, e.wsender, e.sender, e.ext, e.obj, e.sig)
     [] e.name = "Create"  -> Create(e.obj)
+    [] e.name = "EditBridger" -> EditBridger(e.oracle, e.sender)
     [] OTHER              -> FALSE
 
 ---------------------------------------------------------------------------
@@ -130,16 +152,38 @@ A_C12_KeptOnce ==
         \E o \in OwnerOf(op'.ext) : confirms[op'.obj][o] = None /\ confirms'[op'.obj][o] # None
 C12_KeptOnce == [][A_C12_KeptOnce]_vars
 
+\* "that oracle's bridger" is well defined: the account the Oracle record names is bound to exactly that
+\* oracle in the bridger index, and no other account is bound to it (after any number of replacements)
+C12_BridgerIsWellDefined ==
+  /\ \A o \in Oracle : bridgerOf[o] \in Sender /\ bridgerIdx[bridgerOf[o]] = o
+  /\ \A s \in Sender : bridgerIdx[s] # None => (bridgerIdx[s] \in Oracle /\ bridgerOf[bridgerIdx[s]] = s)
+
 \* a confirmation appears only by a Confirm for that object, naming the external address registered for
-\* that oracle, in a transaction signed by that oracle's bridger, who is also the bridger the confirm names
+\* that oracle, in a transaction signed by that oracle's bridger, who is also the bridger the confirm names;
+\* "that oracle's bridger" = the account the oracle's record names AND that is bound to the oracle (a replaced
+\* bridger is neither)
 A_C12_OnlyBridgerOfThatOracle ==
   \A ob \in Object, o \in Oracle :
      confirms'[ob][o] # confirms[ob][o] =>
         /\ op'.name = "Confirm" /\ op'.res = "ok"
         /\ op'.obj = ob /\ extOf[o] = op'.ext
         /\ op'.sender = bridgerOf[o]
+        /\ op'.sender \in Sender /\ bridgerIdx[op'.sender] = o
         /\ SignerOf(op'.form, op'.wsender, op'.sender) = bridgerOf[o]
 C12_OnlyBridgerOfThatOracle == [][A_C12_OnlyBridgerOfThatOracle]_vars
+
+\* the registry changes only by an accepted EditBridger of that oracle: the named account becomes the
+\* oracle's bridger (record and binding), the replaced account is unbound, nothing else moves; the
+\* external addresses never change
+A_C12_BridgerReplacedOnlyByEdit ==
+  /\ extOf' = extOf
+  /\ IF op'.name = "EditBridger" /\ op'.res = "ok" /\ op'.oracle \in Oracle /\ op'.sender \in Sender
+      THEN LET o == op'.oracle  new == op'.sender  old == bridgerOf[o] IN
+           /\ new # old /\ bridgerIdx[new] = None                     \* a different account, not bound to any oracle
+           /\ bridgerOf' = [bridgerOf EXCEPT ![o] = new]
+           /\ old \in Sender => bridgerIdx' = [bridgerIdx EXCEPT ![old] = None, ![new] = o]
+      ELSE bridgerOf' = bridgerOf /\ bridgerIdx' = bridgerIdx
+C12_BridgerReplacedOnlyByEdit == [][A_C12_BridgerReplacedOnlyByEdit]_vars
 
 \* a signature made for another object, kind, gravity id, chain, prefix or key (or no signature at all) is
 \* never accepted and never changes the confirmations; what gets stored is the signature that was sent
@@ -151,13 +195,13 @@ C12_NoCrossUse == [][A_C12_NoCrossUse]_vars
 
 \* objects and registry are not touched by confirmations
 A_C12_ConfirmTouchesOnlyConfirms ==
-  op'.name = "Confirm" => (stored' = stored /\ bridgerOf' = bridgerOf /\ extOf' = extOf)
+  op'.name = "Confirm" => (stored' = stored /\ bridgerOf' = bridgerOf /\ bridgerIdx' = bridgerIdx /\ extOf' = extOf)
 C12_ConfirmTouchesOnlyConfirms == [][A_C12_ConfirmTouchesOnlyConfirms]_vars
 
 ---------------------------------------------------------------------------
 View == svars
 NumConfirms(c) == Cardinality({p \in Object \X Oracle : c[p[1]][p[2]] # None})
-Bounded == NumConfirms(confirms') <= MaxConfirms
+Bounded == NumConfirms(confirms') <= MaxConfirms /\ edits' <= MaxEdits
 EdgeDump == /\ IF op.name = "Init" \/ op'.res = "ok"
                THEN PrintT(<<"EDGE", ToJson([from |-> Abs, op |-> op', to |-> Abs'])>>)
                ELSE TRUE
